@@ -119,6 +119,7 @@ fn g32(d: &[u8], o: usize) -> u32 { u32::from_ne_bytes([d[o], d[o + 1], d[o + 2]
 // @kind core
 // @timeout 900
 // @mem 12
+// @rss 12
 // @functions bigbedwrite::encode_section (uncompressed branch)
 // @bounds 2 entries per block; coordinates full width; rest fields of length 2 and 0 with symbolic non-NUL bytes
 // @assumes entries start-sorted with start <= end; rest bytes non-NUL ASCII
